@@ -50,13 +50,18 @@ class Values:
     def rv(self, name): return self._v(f'rv_{name}')
 
 
-def ref(spec, row, V: Values, data=None, draw_index=None, ind=None, override=None):
+def ref(spec, row, V: Values, data=None, draw_index=None, ind=None, override=None, panel_rows=None):
     """z3 term: the mathematical value of ``spec`` on data row ``row``.
 
     ``data``: DataFrame supplying the *concrete* key columns (symbolic cells come from V).
     ``override``: dict name -> term replacing beta values (used for by-name dictionaries)."""
     kind = spec[0]
-    rec = lambda s: ref(s, row, V, data, draw_index, ind, override)
+    rec = lambda s: ref(s, row, V, data, draw_index, ind, override, panel_rows)
+    if kind == 'PanelLikelihoodTrajectory':
+        prod = RV(1)
+        for rw in panel_rows:
+            prod = prod * ref(spec[1], rw, V, data, draw_index, ind, override, panel_rows)
+        return prod
     if kind == 'beta':
         if override is not None and spec[1] in override:
             return lift(override[spec[1]])
@@ -143,7 +148,7 @@ def ref(spec, row, V: Values, data=None, draw_index=None, ind=None, override=Non
         R = spec[2]
         tot = RV(0)
         for r in range(R):
-            tot = tot + ref(spec[1], row, V, data, r, ind, override)
+            tot = tot + ref(spec[1], row, V, data, r, ind, override, panel_rows)
         return tot / R
     raise ValueError(f'ref: unknown spec {kind}')
 
@@ -247,7 +252,7 @@ def _walk(x, acc):
 
 ALL_KINDS = set(BINARY) | set(UNARY) | {'beta', 'num', 'lit', 'var', 'draw', 'rv', 'share', 'PowerConstant',
                                         'BelongsTo', 'Elem', 'bioMultSum', 'bioMultSumDict', 'ConditionalSum',
-                                        'bioLinearUtility', 'LogLogit', 'MonteCarlo'}
+                                        'bioLinearUtility', 'LogLogit', 'MonteCarlo', 'PanelLikelihoodTrajectory'}
 
 
 def uses_python_evaluator(spec) -> bool:
@@ -367,6 +372,8 @@ class Builder:
             return ex._bioLogLogit(util, av, B(spec[1]))
         if kind == 'MonteCarlo':
             return ex.MonteCarlo(B(spec[1]))
+        if kind == 'PanelLikelihoodTrajectory':
+            return ex.PanelLikelihoodTrajectory(B(spec[1]))
         raise ValueError(f'build: unknown spec {kind}')
 
 
